@@ -19,6 +19,26 @@ type PageSpec struct {
 // Doc builds a document. Pages are grouped into intermediate nodes of groupSize pages; group g
 // has inherited Rotate = groupRot[g%len] and MediaBox = groupBox[g%len].
 func Doc(pages []PageSpec, groupSize int, groupRot []int, groupBox [][4]float64) []byte {
+	return DocX(pages, groupSize, groupRot, groupBox, Extra{})
+}
+
+// Extra describes optional document-level parts.
+type Extra struct {
+	Info    string   // body of the Info dictionary ("" = no Info dictionary), PDF syntax
+	XMP     []byte   // XMP packet for the catalog's Metadata stream (nil = none)
+	Catalog string   // additional catalog entries, PDF syntax
+	Objects []string // additional indirect objects; "%d" style references are the caller's business: they are
+	// numbered FirstExtra, FirstExtra+1, ... where FirstExtra = ExtraBase(pages, groupSize)
+}
+
+// ExtraBase returns the object number the first Extra.Objects entry gets.
+func ExtraBase(nPages, groupSize int) int {
+	nGroups := (nPages + groupSize - 1) / groupSize
+	return 3 + nGroups + 2*nPages + 1
+}
+
+// DocX is Doc with document-level extras.
+func DocX(pages []PageSpec, groupSize int, groupRot []int, groupBox [][4]float64, x Extra) []byte {
 	var objs [][]byte // index = obj nr - 1
 	add := func(b string) int {
 		objs = append(objs, []byte(b))
@@ -63,7 +83,22 @@ func Doc(pages []PageSpec, groupSize int, groupRot []int, groupBox [][4]float64)
 			len(kidsOfGroup[g]), kids.String(), groupRot[g%len(groupRot)], box[0], box[1], box[2], box[3]))
 		fmt.Fprintf(&rootKids, "%d 0 R ", groupObj[g])
 	}
-	objs[0] = []byte("<< /Type /Catalog /Pages 2 0 R >>")
+	for _, o := range x.Objects {
+		add(o)
+	}
+	cat := "<< /Type /Catalog /Pages 2 0 R"
+	if x.XMP != nil {
+		m := add(fmt.Sprintf("<< /Type /Metadata /Subtype /XML /Length %d >>\nstream\n%s\nendstream", len(x.XMP), x.XMP))
+		cat += fmt.Sprintf(" /Metadata %d 0 R", m)
+	}
+	if x.Catalog != "" {
+		cat += " " + x.Catalog
+	}
+	infoRef := ""
+	if x.Info != "" {
+		infoRef = fmt.Sprintf(" /Info %d 0 R", add("<< "+x.Info+" >>"))
+	}
+	objs[0] = []byte(cat + " >>")
 	objs[1] = []byte(fmt.Sprintf("<< /Type /Pages /Count %d /Kids [%s] >>", len(pages), rootKids.String()))
 
 	var out bytes.Buffer
@@ -78,6 +113,6 @@ func Doc(pages []PageSpec, groupSize int, groupRot []int, groupBox [][4]float64)
 	for _, off := range offsets {
 		fmt.Fprintf(&out, "%010d 00000 n \n", off)
 	}
-	fmt.Fprintf(&out, "trailer\n<< /Size %d /Root 1 0 R >>\nstartxref\n%d\n%%%%EOF\n", len(objs)+1, xref)
+	fmt.Fprintf(&out, "trailer\n<< /Size %d /Root 1 0 R%s >>\nstartxref\n%d\n%%%%EOF\n", len(objs)+1, infoRef, xref)
 	return out.Bytes()
 }
